@@ -47,6 +47,41 @@ def fields_in(sl):
     return out
 
 
+def single_edges_specs(b, fl, c):
+    """(ok, overrides): every constructor call of to_single_edges gets the source's specs with exactly
+    multi_edges overridden to false (a struct update `GraphSpecs { multi_edges: false, ..self.specs.clone() }`,
+    possibly bound to a variable first)"""
+    # the aggregate that reaches the specs argument (through copies / moves)
+    l = c.args[2].place.local if c.args[2].place is not None and not c.args[2].place.proj else None
+    aggr = None
+    for _ in range(6):
+        if l is None:
+            break
+        d = fl.single_def(l)
+        rv = getattr(d, "rv", None) if d is not None else None
+        if rv is None:
+            break
+        if rv.k == "aggr" and rv.j.get("adt", "").endswith("GraphSpecs"):
+            aggr = d
+            break
+        if rv.k == "use" and rv.ops and rv.ops[0].place is not None and not rv.ops[0].place.proj:
+            l = rv.ops[0].place.local
+            continue
+        break
+    if aggr is None:
+        return False, []
+    over = []
+    ok = True
+    for fname, o in zip(aggr.rv.j["fields"], aggr.rv.ops):
+        if o.is_const():
+            over.append((fname, o.const_int()))
+        else:
+            sl = fl.slice_local(fl._op_reads(o), data_only=True)
+            if not any(nd[0] == "SRC" and "specs" in nd[2] for nd in sl):
+                ok = False
+    return ok and over == [("multi_edges", 0)], over
+
+
 def run(ctx):
     prog = ctx.prog
     flows = Flows(prog)
@@ -94,22 +129,7 @@ def run(ctx):
         # specs argument
         sd = panic.norm(fl.describe(c.args[2], depth=8))
         if name == "to_single_edges":
-            okspec = sd[0] == "adt" and sd[1].endswith("GraphSpecs::GraphSpecs")
-            over = []
-            if okspec:
-                st = panic.origin_call(fl, c.args[2])
-                aggr = [s for s in b.stmts() if s.k == "assign" and s.rv.k == "aggr" and s.rv.j.get("adt", "").endswith("GraphSpecs")]
-                okspec = len(aggr) == 1
-                if okspec:
-                    for fname, o in zip(aggr[0].rv.j["fields"], aggr[0].rv.ops):
-                        d = fl.describe(o, depth=8)
-                        if o.is_const():
-                            over.append((fname, o.const_int()))
-                        else:
-                            sl = fl.slice_local(fl._op_reads(o), data_only=True)
-                            if not any(nd[0] == "SRC" and "specs" in nd[2] for nd in sl):
-                                okspec = False
-                    okspec = okspec and over == [("multi_edges", 0)]
+            okspec, over = single_edges_specs(b, fl, c)
             ctx.require(okspec, "R-C15-2", "specs|" + name, "to_single_edges keeps the source's specs except multi_edges = false", "to_single_edges builds its specs differently (overrides %s)" % over, loc_str(c.span))
         else:
             okspec = fmt_desc(panic.shape(sd)) == "_.specs" or (sd[0] == "place" and sd[1].endswith(".specs"))
